@@ -9,6 +9,17 @@ from ..lib.term import Con, Some, canon, norm
 from ..lib.universe import from_py, gen_universe, gen_value, universe_from_json, universe_to_json
 from .c15 import P as _P, R as _R, SOURCES, mk_origin, obs_origin_struct, pt_of_index
 
+# the extracted driver prints observations of several MB through non-tail-recursive list functions: give the
+# processes started from here (the model driver is started by the worker after this module is imported) the hard
+# stack limit instead of the 8 MB default
+try:
+    import resource as _resource
+
+    _soft, _hard = _resource.getrlimit(_resource.RLIMIT_STACK)
+    _resource.setrlimit(_resource.RLIMIT_STACK, (_hard, _hard))
+except Exception:  # noqa
+    pass
+
 ID = "C03"
 ENTRY = "C03"
 RUNNER = "run_C03"
@@ -245,6 +256,13 @@ class HistGen:
         rng = self.rng
         r = rng.random()
         loc = self.pick_loc()
+        sizes = [(len(x.pre()), v) for v, x in enumerate(self.vars) if x is not None]
+        if sum(n for n, _ in sizes) > 40 and rng.random() < 0.8:
+            # keep the held forest (and with it the size of every observation) bounded: drop the biggest tree
+            v = max(sizes)[1]
+            self.ops.append(Con("Drop", v))
+            self.vars[v] = None
+            return
         if loc is None or r < 0.28:
             dst = self.free_var()
             twins = [s for _, _, s in self.all_locs()]
